@@ -200,27 +200,29 @@ theorem sum_key_indicator {α κ} [DecidableEq κ] (key : α → κ) (k : κ) (v
 
 /-! ### populations -/
 
-/-- a BBMD node: own address, upper layer bound, duplicate-free tables, two-hop (full-mask)
-    entries that name BBMD nodes, FDT entries that name foreign-device nodes of OTHER subnets -/
+/-- a BBMD node: own address, upper layer bound, duplicate-free tables; every BDT entry names a
+    BBMD node and is either TWO-HOP (the datagram goes to that BBMD itself: `dirBcast e = e.addr`,
+    e.g. an all-ones mask) or ONE-HOP (it goes to the broadcast address of that BBMD's subnet, and
+    the router port of that subnet accepts its broadcast address — "routers forward directed
+    broadcasts"); FDT entries name foreign-device nodes -/
 def BbmdOk (w : World) (n : Net) (nd : Node) : Prop :=
   match nd.st with
   | .bbmd b =>
       b.addr = nd.addr ∧ b.hasUpper = true ∧ (b.bdt.map (·.addr)).Nodup ∧ FdtNodup b.fdt ∧
-      (∀ e ∈ b.bdt, e.mask = 4294967295 ∧ e.addr.ip < 4294967296 ∧
-          ∃ nc ∈ w.nets, ∃ cn ∈ nc.nodes, cn.addr = e.addr ∧ cn.isBbmd = true) ∧
-      (∀ e ∈ b.fdt, ∃ nf ∈ w.nets, nf.id ≠ n.id ∧ ∃ y ∈ nf.nodes, y.addr = e.addr ∧ y.isForeign = true)
+      (∀ e ∈ b.bdt, ∃ nc ∈ w.nets, ∃ cn ∈ nc.nodes, cn.addr = e.addr ∧ cn.isBbmd = true ∧
+          (dirBcast e = e.addr ∨ (dirBcast e = nc.bcast ∧ nc.covers nc.bcast = true))) ∧
+      (∀ e ∈ b.fdt, ∃ nf ∈ w.nets, ∃ y ∈ nf.nodes, y.addr = e.addr ∧ y.isForeign = true) ∧
+      n.id = n.id
   | _ => True
 
 instance (w : World) (n : Net) (nd : Node) : Decidable (BbmdOk w n nd) := by
   unfold BbmdOk; split <;> exact inferInstance
 
 /-- the population hypotheses of the distribution theorems (all decidable):
-    every BBMD is `BbmdOk`; at most one BBMD per subnet; no foreign device is registered with
-    a BBMD of its own subnet -/
+    every BBMD is `BbmdOk`; at most one BBMD per subnet -/
 def Pop (w : World) : Prop :=
   (∀ n ∈ w.nets, ∀ nd ∈ n.nodes, BbmdOk w n nd) ∧
-  (∀ n ∈ w.nets, ∀ y ∈ n.nodes, ∀ z ∈ n.nodes, y.isBbmd = true → z.isBbmd = true → y = z) ∧
-  (∀ n ∈ w.nets, ∀ y ∈ n.nodes, ∀ z ∈ n.nodes, y.accepts z.addr = false)
+  (∀ n ∈ w.nets, ∀ y ∈ n.nodes, ∀ z ∈ n.nodes, y.isBbmd = true → z.isBbmd = true → y = z)
 
 instance (w : World) : Decidable (Pop w) := by unfold Pop; exact inferInstance
 
@@ -258,15 +260,16 @@ theorem sum_nodes_at {n : Net} (hn : n ∈ w.nets) (g : Node → Nat) :
 include hp
 
 /-- **copy to a foreign device**: a BBMD's Forwarded-NPDU to an FDT entry is handed up there
-    iff that device is registered (status 0) with this very BBMD -/
+    iff that device is registered (status 0) with this very BBMD — wherever the device sits -/
 theorem tot_fdt_copy {n : Net} (hn : n ∈ w.nets) {B : Node} (hB : B ∈ n.nodes)
-    (e : Addr) (hent : ∃ nf ∈ w.nets, nf.id ≠ n.id ∧ ∃ y ∈ nf.nodes, y.addr = e ∧ y.isForeign = true)
+    (e : Addr) (hent : ∃ nf ∈ w.nets, ∃ y ∈ nf.nodes, y.addr = e ∧ y.isForeign = true)
     (o : Addr) (data : Data) (f : Nat) :
     tot (poAt x.addr c) pd (f + 2) w [⟨n.id, B.addr, e, .forwarded o data⟩] =
       if e = x.addr ∧ x.accepts B.addr = true then c else 0 := by
-  obtain ⟨nf, hnf, hne, y, hy, hye, hyf⟩ := hent
+  obtain ⟨nf, hnf, y, hy, hye, hyf⟩ := hent
   subst hye
-  rw [tot_unicast_remote hw _ pd hn hnf (fun h => hne h.symm) hB hy]
+  obtain ⟨g, _, hg⟩ := tot_unicast hw (poAt x.addr c) pd hn hnf hB hy B.addr (.forwarded o data) f
+  rw [hg]
   obtain ⟨ya, yst⟩ := y
   cases yst with
   | foreign fs =>
@@ -282,7 +285,7 @@ theorem tot_fdt_copy {n : Net} (hn : n ∈ w.nets) {B : Node} (hB : B ∈ n.node
 /-- all FDT copies of one BBMD together -/
 theorem tot_fdt_sum {n : Net} (hn : n ∈ w.nets) {B : Node} (hB : B ∈ n.nodes)
     (fdt : List FdtEntry) (hnd : FdtNodup fdt)
-    (hent : ∀ e ∈ fdt, ∃ nf ∈ w.nets, nf.id ≠ n.id ∧ ∃ y ∈ nf.nodes, y.addr = e.addr ∧ y.isForeign = true)
+    (hent : ∀ e ∈ fdt, ∃ nf ∈ w.nets, ∃ y ∈ nf.nodes, y.addr = e.addr ∧ y.isForeign = true)
     (o : Addr) (data : Data) (f : Nat) :
     (fdt.map fun e => tot (poAt x.addr c) pd (f + 2) w [⟨n.id, B.addr, e.addr, .forwarded o data⟩]).sum =
       if x.addr ∈ fdt.map (·.addr) ∧ x.accepts B.addr = true then c else 0 := by
@@ -295,36 +298,103 @@ theorem tot_fdt_sum {n : Net} (hn : n ∈ w.nets) {B : Node} (hB : B ∈ n.nodes
   rw [h1, sum_key_indicator (fun e : FdtEntry => e.addr) x.addr _ fdt hnd]
   by_cases h : x.addr ∈ fdt.map (·.addr) <;> simp [h]
 
-/-- **local re-broadcast** of a Forwarded-NPDU by the BBMD of a subnet: exactly the ordinary
-    nodes of that subnet hand it up -/
+/-- **local re-broadcast** of a Forwarded-NPDU by the BBMD of a subnet: the ordinary nodes of
+    that subnet hand it up — and so does a foreign device that sits there although it is
+    registered with this very BBMD (the misconfiguration: it will ALSO get its FDT copy) -/
 theorem tot_local_fwd {n : Net} (hn : n ∈ w.nets) {B : Node} (hB : B ∈ n.nodes) (hBb : B.isBbmd = true)
     (o : Addr) (data : Data) (f : Nat) :
     tot (poAt x.addr c) pd (f + 1) w [⟨n.id, B.addr, n.bcast, .forwarded o data⟩] =
-      if nx.id = n.id ∧ x.addr ≠ B.addr ∧ x.isSimple = true then c else 0 := by
+      (if nx.id = n.id ∧ x.addr ≠ B.addr ∧ x.isSimple = true then c else 0)
+      + (if nx.id = n.id ∧ x.accepts B.addr = true then c else 0) := by
   rw [tot_bcast hw _ pd hn]
   have h1 : (n.nodes.map fun nd => if nd.addr ≠ B.addr then
         nodeT (poAt x.addr c) pd f w n B.addr .bcast (.forwarded o data) nd else 0) =
       n.nodes.map fun nd => if nd.addr = x.addr then
-        (if nd.addr ≠ B.addr ∧ nd.isSimple = true then c else 0) else 0 := by
+        ((if nd.addr ≠ B.addr ∧ nd.isSimple = true then c else 0)
+          + (if nd.accepts B.addr = true then c else 0)) else 0 := by
     apply List.map_congr_left
     intro nd hnd
     by_cases hne : nd.addr = B.addr
-    · simp [hne]
+    · have : nd = B := hw.node_eq hn hn hnd hB hne
+      subst this
+      have : nd.accepts nd.addr = false := by
+        obtain ⟨a, st⟩ := nd
+        cases st <;> simp_all [Node.accepts, Node.isBbmd, Kind.isBbmd]
+      simp [this]
     · simp only [ne_eq, hne, not_false_eq_true, if_true, true_and]
       obtain ⟨ya, yst⟩ := nd
       cases yst with
       | simple =>
         rw [nodeT_simple_fwd]
-        simp [hit, Node.isSimple]
+        simp [hit, Node.isSimple, Node.accepts]
       | foreign fs =>
         rw [nodeT_foreign_fwd]
-        have hacc := hp.2.2 n hn _ hnd B hB
-        simp only [Node.accepts, decide_eq_false_iff_not] at hacc
-        simp [hacc, Node.isSimple]
+        by_cases hacc : fs.status = 0 ∧ fs.bbmd = some B.addr
+        · simp [hacc, hit, Node.isSimple, Node.accepts]
+        · simp [hacc, Node.isSimple, Node.accepts]
       | bbmd b =>
-        exact absurd (congrArg Node.addr (hp.2.1 n hn _ hnd B hB rfl hBb)) hne
+        exact absurd (congrArg Node.addr (hp.2 n hn _ hnd B hB rfl hBb)) hne
   rw [h1, sum_nodes_at hw hnx hx hn]
   by_cases hid : nx.id = n.id <;> simp [hid]
+
+/-- **one-hop arrival**: a Forwarded-NPDU of sender `sa` (a node of another subnet) sent to the
+    broadcast address of subnet `nc`: every node there that is not a foreign device hands it up,
+    a foreign device there does iff it is registered with the SENDER, and the subnet's BBMD adds
+    its FDT copies (it does not re-broadcast what arrived as a broadcast) -/
+theorem tot_directed_fwd {n : Net} (hn : n ∈ w.nets) {B : Node} (hB : B ∈ n.nodes)
+    {nc : Net} (hnc : nc ∈ w.nets) (hne : n.id ≠ nc.id) (hcov : nc.covers nc.bcast = true)
+    {ca : Addr} {cb : Bbmd} (hC : (⟨ca, .bbmd cb⟩ : Node) ∈ nc.nodes)
+    (hup : cb.hasUpper = true) (hfn : FdtNodup cb.fdt)
+    (hfd : ∀ e ∈ cb.fdt, ∃ nf ∈ w.nets, ∃ y ∈ nf.nodes, y.addr = e.addr ∧ y.isForeign = true)
+    (o : Addr) (data : Data) (f : Nat) :
+    tot (poAt x.addr c) pd (f + 4) w [⟨n.id, B.addr, nc.bcast, .forwarded o data⟩] =
+      (if nx.id = nc.id ∧ x.isForeign = false then c else 0)
+      + (if x.addr ∈ cb.fdt.map (·.addr) ∧ x.accepts ca = true then c else 0)
+      + (if nx.id = nc.id ∧ x.accepts B.addr = true then c else 0) := by
+  rw [show f + 4 = (f + 2) + 2 from rfl, tot_directed hw _ pd hn hnc hne hcov hB]
+  have hsrc : ∀ nd ∈ nc.nodes, nd.addr ≠ B.addr := by
+    intro nd hnd h
+    exact hne (congrArg Net.id (hw.node_net hnc hn hnd hB h)).symm
+  have h1 : (nc.nodes.map fun nd => if nd.addr ≠ B.addr then
+        nodeT (poAt x.addr c) pd (f + 2) w nc B.addr .bcast (.forwarded o data) nd else 0) =
+      nc.nodes.map fun nd =>
+        (if nd.addr = x.addr then
+          ((if nd.isForeign = false then c else 0) + (if nd.accepts B.addr = true then c else 0)) else 0)
+        + (if nd.isBbmd = true then
+            (if x.addr ∈ cb.fdt.map (·.addr) ∧ x.accepts ca = true then c else 0) else 0) := by
+    apply List.map_congr_left
+    intro nd hnd
+    simp only [ne_eq, hsrc nd hnd, not_false_eq_true, if_true]
+    obtain ⟨ya, yst⟩ := nd
+    cases yst with
+    | simple =>
+      rw [nodeT_simple_fwd]
+      simp [hit, Node.isForeign, Node.accepts, Node.isBbmd, Kind.isBbmd]
+    | foreign fs =>
+      rw [nodeT_foreign_fwd]
+      by_cases hacc : fs.status = 0 ∧ fs.bbmd = some B.addr
+      · simp [hacc, hit, Node.isForeign, Node.accepts, Node.isBbmd, Kind.isBbmd]
+      · simp [hacc, Node.isForeign, Node.accepts, Node.isBbmd, Kind.isBbmd]
+    | bbmd b =>
+      have hbc : (⟨ya, .bbmd b⟩ : Node) = ⟨ca, .bbmd cb⟩ := hp.2 nc hnc _ hnd _ hC rfl rfl
+      cases hbc
+      rw [nodeT_bbmd_fwd_bcast _ _ _ _ _ _ _ _ _ _ _ hup,
+        tot_fdt_sum hw hp pd c hnx hx hnc hC cb.fdt hfn hfd o data f]
+      simp [hit, Node.isForeign, Node.accepts, Node.isBbmd, Kind.isBbmd]
+  rw [h1, sum_map_add, sum_nodes_at hw hnx hx hnc]
+  have h2 : (nc.nodes.map fun nd => if nd.isBbmd = true then
+        (if x.addr ∈ cb.fdt.map (·.addr) ∧ x.accepts ca = true then c else 0) else 0).sum =
+      (if x.addr ∈ cb.fdt.map (·.addr) ∧ x.accepts ca = true then c else 0) := by
+    rw [sum_unique _ nc.nodes _ hC (nodup_of_map _ _ (hw.nodes_nodup hnc))]
+    · simp [Node.isBbmd, Kind.isBbmd]
+    · intro z hz hzC
+      have : ¬ z.isBbmd = true := fun hb => hzC (hp.2 nc hnc z hz _ hC hb rfl)
+      simp [this]
+  rw [h2]
+  by_cases hid : nx.id = nc.id
+  · simp only [hid, true_and, if_true]
+    omega
+  · simp [hid]
 
 end pop
 
